@@ -88,6 +88,8 @@ pub struct PipeInner {
     pub shutdown_mode: ShutdownMode,
     /// nothing is delivered to the reader while stalled (writer fills the capacity, then blocks)
     pub stalled: bool,
+    /// writer-side gate: while closed, `poll_write` accepts nothing (and leaves write sizes untouched)
+    pub write_gate_closed: bool,
     /// discard everything written (peer that drains but never answers is modelled elsewhere)
     pub total_written: u64,
     pub total_read: u64,
@@ -178,6 +180,16 @@ impl PipeCtl {
             }
         })
     }
+    /// Park the writer: while the gate is closed a write stays pending inside the transport; opening it lets
+    /// the write complete in one piece (unlike a full pipe, which would split it).
+    pub fn set_write_gate(&self, closed: bool) {
+        self.with(|p| {
+            p.write_gate_closed = closed;
+            if !closed {
+                p.wake_writer();
+            }
+        })
+    }
     /// close from the writer side now (peer sees EOF after draining what is in flight)
     pub fn close_write(&self) {
         self.with(|p| {
@@ -240,6 +252,7 @@ pub fn pipe(cfg: PipeCfg) -> (PipeWriter, PipeReader, PipeCtl) {
         flush_fault: None,
         shutdown_mode: ShutdownMode::Ok,
         stalled: false,
+        write_gate_closed: false,
         total_written: 0,
         total_read: 0,
         read_fault_fired: false,
@@ -287,6 +300,23 @@ fn cut(site: &'static str, id: u64, avail: usize, cut_ppm: u32, one_ppm: u32) ->
 
 impl AsyncRead for PipeReader {
     fn poll_read(mut self: Pin<&mut Self>, cx: &mut Context<'_>, buf: &mut ReadBuf<'_>) -> Poll<io::Result<()>> {
+        // like a real tokio socket, a pipe operation spends one unit of the task's cooperative budget: a task
+        // that loops over ready operations is sent back to the scheduler after 128 of them (which also turns
+        // "reads end-of-stream for ever" from an endless poll into a spin the scheduler can see)
+        let coop = match ::tokio::task::coop::poll_proceed(cx) {
+            Poll::Ready(c) => c,
+            Poll::Pending => return Poll::Pending,
+        };
+        let r = self.as_mut().poll_read_inner(cx, buf);
+        if r.is_ready() {
+            coop.made_progress();
+        }
+        r
+    }
+}
+
+impl PipeReader {
+    fn poll_read_inner(mut self: Pin<&mut Self>, cx: &mut Context<'_>, buf: &mut ReadBuf<'_>) -> Poll<io::Result<()>> {
         let this = &mut *self;
         let sh = this.sh.clone();
         let mut p = sh.lock().unwrap();
@@ -428,6 +458,28 @@ impl Drop for PipeReader {
 
 impl AsyncWrite for PipeWriter {
     fn poll_write(mut self: Pin<&mut Self>, cx: &mut Context<'_>, data: &[u8]) -> Poll<io::Result<usize>> {
+        let coop = match ::tokio::task::coop::poll_proceed(cx) {
+            Poll::Ready(c) => c,
+            Poll::Pending => return Poll::Pending,
+        };
+        let r = self.as_mut().poll_write_inner(cx, data);
+        if r.is_ready() {
+            coop.made_progress();
+        }
+        r
+    }
+
+    fn poll_flush(self: Pin<&mut Self>, cx: &mut Context<'_>) -> Poll<io::Result<()>> {
+        self.poll_flush_inner(cx)
+    }
+
+    fn poll_shutdown(self: Pin<&mut Self>, cx: &mut Context<'_>) -> Poll<io::Result<()>> {
+        self.poll_shutdown_inner(cx)
+    }
+}
+
+impl PipeWriter {
+    fn poll_write_inner(mut self: Pin<&mut Self>, cx: &mut Context<'_>, data: &[u8]) -> Poll<io::Result<usize>> {
         let sh = self.sh.clone();
         let mut p = sh.lock().unwrap();
         let id = p.id;
@@ -456,6 +508,10 @@ impl AsyncWrite for PipeWriter {
         }
         if data.is_empty() {
             return Poll::Ready(Ok(0));
+        }
+        if p.write_gate_closed {
+            p.writer_waker = Some(cx.waker().clone());
+            return Poll::Pending;
         }
         if data.len() > p.write_limit {
             p.oversize_attempt = Some(data.len());
@@ -527,7 +583,7 @@ impl AsyncWrite for PipeWriter {
         Poll::Ready(Ok(n))
     }
 
-    fn poll_flush(mut self: Pin<&mut Self>, cx: &mut Context<'_>) -> Poll<io::Result<()>> {
+    fn poll_flush_inner(mut self: Pin<&mut Self>, cx: &mut Context<'_>) -> Poll<io::Result<()>> {
         let sh = self.sh.clone();
         // slow flush: completes `flush_delay_us` after the first flush poll that follows a write
         let delay = sh.lock().unwrap().cfg.flush_delay_us;
@@ -573,7 +629,7 @@ impl AsyncWrite for PipeWriter {
         Poll::Ready(Ok(()))
     }
 
-    fn poll_shutdown(self: Pin<&mut Self>, cx: &mut Context<'_>) -> Poll<io::Result<()>> {
+    fn poll_shutdown_inner(self: Pin<&mut Self>, cx: &mut Context<'_>) -> Poll<io::Result<()>> {
         let sh = self.sh.clone();
         let mut p = sh.lock().unwrap();
         let id = p.id;
